@@ -13,6 +13,9 @@ so one op line carries a whole script and the observation has one token per step
     V     what every index answers at the start: `uuid:seq,uuid:seq,…` (N items)
     STEP  `s:ORDER`        Start() (first) / config revision bump (later): reset, then answers arrive in ORDER (`2.0.1` or `-`)
           `m:ABS:ORDER`    the row of the vBucket map changes (new ABS), then as `s`
+          `e:E:R:ABS:ORDER` the cluster publishes a config with revision (revEpoch E, rev R) and row ABS (every cluster starts at
+                           (2,100); `s`/`m` publish rev+1 of the current epoch): adopted only if lexicographically newer than
+                           the one in use (`isNewer`), then as `s`; otherwise nothing happens (`[]`) and the old layout stays
           `r:I:U:S`        index I now answers (U,S)
           `t:I:U:S:K`      the same, after K TMPFAIL answers (retried inside gocbcore)
           `b:I:U:S:K`      the same, after K BUSY answers (retried inside gocbcore)
@@ -50,6 +53,7 @@ def rmStep? (s : String) : Option RmStep :=
   match s.splitOn ":" with
   | ["s", o] => do some (.start (← dots? o))
   | ["m", a, o] => do some (.remap (← dots? a) (← dots? o))
+  | ["e", e, r, a, o] => do some (.config (← e.toNat?) (← r.toNat?) (← dots? a) (← dots? o))
   | ["r", i, u, q] => do some (.change (← i.toNat?) (← u.toNat?) (← q.toNat?))
   | ["t", i, u, q, k] => do let _ ← k.toNat?; some (.change (← i.toNat?) (← u.toNat?) (← q.toNat?))
   | ["b", i, u, q, k] => do let _ ← k.toNat?; some (.change (← i.toNat?) (← u.toNat?) (← q.toNat?))
@@ -88,7 +92,7 @@ def hRmScript (args : List String) (real : Option String) : Option Out := do
     | some r =>
       match (toks r).mapM rmObs? with
       | none => "FAIL parse"
-      | some ro => match Spec.C07.rmCheck s0 steps ro with
+      | some ro => match Spec.C07.rmCheckL s0 steps ro with
         | none => "ok"
         | some c => s!"FAIL {c}"
   some { model, verdict }
